@@ -11,11 +11,12 @@ STATE_POOLS = {
                   frozenset([(1,)]), frozenset([0])],
     'mixed': [0, '0', (0,), frozenset([0]), 'zero', -1, ('x', 1), 2.5],
     'opaque': 'OPAQUE',
+    'exotic': 'EXOTIC',
     'genlike': ['[E(X(p))]', 'fair', 'fair0', '[A(G(p))]', 'p', 'true', '[[E(X(p))](0)]'],
 }
 LABEL_POOL = ['p', 'q', 'r_1', 'p or q', 'not p', 'true', 'false', 'A', 'E', 'X', 'U', 'fair', 'fair0',
               '[E(X(p))]', '[A(G(p))]', '(p)', 'p and', '', ' ', 'AG', 'Xp', 7, 0, (1, 2), None, 3.5,
-              frozenset(['p'])]
+              frozenset(['p']), 'a"b', 'a\nb', 'a\\b', 'x' * 200, b'p']
 ABSENT = ['absent', 'zz_9', 'not_in_K', 'Absent atom']
 CHECKERS = ['CTL', 'LTL', 'CTLS']
 
@@ -24,7 +25,43 @@ def usable_as_atom(name):
     return isinstance(name, str) and '"' not in name and '\\' not in name and '\n' not in name
 
 
+class _H0(object):
+    """Value equality, constant hash: unequal states that collide in every dict/set."""
+
+    def __init__(self, v):
+        self.v = v
+
+    def __hash__(self):
+        return 0
+
+    def __eq__(self, other):
+        return isinstance(other, _H0) and self.v == other.v
+
+    def __repr__(self):
+        return '_H0(%r)' % (self.v,)
+
+
+class _StrSub(str):
+    pass
+
+
+def _exotic_pool():
+    import collections
+    import decimal
+    import enum
+    import fractions
+    Pt = collections.namedtuple('Pt', 'x y')
+    Color = enum.Enum('Color', 'RED GREEN')
+    return [b'x', Pt(1, 2), Color.RED, range(3), fractions.Fraction(1, 2), decimal.Decimal('1.5'), float('inf'),
+            _StrSub('s'), _H0('a'), _H0('b'), tuple(range(50)), Color.GREEN, _H0(('c', 1)), b'']
+
+
+_EXOTIC = _exotic_pool()
+
+
 def pool_of(name):
+    if name == 'exotic':
+        return _EXOTIC
     if name == 'opaque':
         from ..graphs import _OPAQUE
         return _OPAQUE[:8]
@@ -35,8 +72,12 @@ def fresh(x):
     """An object equal to x but not identical to it (where Python allows): the same state is
     handed to S, R and L as three different objects, as a caller reading them from three
     sources would."""
+    if type(x) is not str and isinstance(x, str):
+        return x
     if isinstance(x, str):
         return ''.join(list(x)) if len(x) > 1 else x
+    if type(x) is not tuple and isinstance(x, tuple):
+        return x                           # namedtuples: hand out the same object
     if isinstance(x, tuple):
         if any(type(y).__name__ in ('Opaque', 'object') for y in x):
             return x                       # identity matters inside: hand out the very same object
@@ -69,7 +110,12 @@ def formula_for(inp):
     """Tuple formula whose atom slots a0..a3 are filled with the case's atom names."""
     names = inp['atoms']
     m = dict(('a%d' % i, names[i % len(names)]) for i in range(4))
-    return fm.rename_atoms(fm.from_json(inp['f']), m)
+    t = fm.rename_atoms(fm.from_json(inp['f']), m)
+    if inp.get('wide'):
+        # wide rather than deep: a 24-ary disjunction/conjunction around the formula
+        t = ('or' if inp['wide'] % 2 else 'and', t) + tuple(('ap', names[i % len(names)]) if i % 3 else ('not', ('ap', names[i % len(names)]))
+                                                            for i in range(23))
+    return t
 
 
 def snapshot(kripke):
@@ -186,7 +232,9 @@ def random_shard(st, shard, nshards, payload):
             edges += [[i, j] for j in range(n) if (m >> j) & 1]
         labels = [draw(hs.lists(hs.integers(0, len(LABEL_POOL) - 1), max_size=3, unique=True))
                   for _ in range(n)]
-        used = sorted(set(LABEL_POOL[k] for lab in labels for k in lab if usable_as_atom(LABEL_POOL[k])))
+        as_text = draw(hs.booleans())
+        used = sorted(set(LABEL_POOL[k] for lab in labels for k in lab
+                          if isinstance(LABEL_POOL[k], str) and (usable_as_atom(LABEL_POOL[k]) or not as_text)))
         cand = used + ABSENT
         atoms = draw(hs.lists(hs.sampled_from(cand), min_size=1, max_size=3))
         checker = draw(hs.sampled_from(CHECKERS))
@@ -197,8 +245,8 @@ def random_shard(st, shard, nshards, payload):
         else:
             f = draw(fm.st_formula('ctls_state', slots[:3], max_depth=3, max_temporal=2))
         return {'pool': pool, 'n': n, 'state_idx': list(idx), 'edges': edges, 'labels': labels,
-                'atoms': atoms, 'checker': checker, 'f': f, 'text': draw(hs.booleans()),
-                'mutate': draw(hs.integers(0, 2))}
+                'atoms': atoms, 'checker': checker, 'f': f, 'text': as_text,
+                'mutate': draw(hs.integers(0, 2)), 'wide': draw(hs.sampled_from([0, 0, 0, 0, 0, 1, 2]))}
 
     def body(inp):
         nt = is_nontrivial(inp)
